@@ -153,3 +153,28 @@ prop(
              "NOT COVERED: real scheduling delay ('one per interval' is relative to trio's clock); 'indefinitely' beyond 'no path returns'"],
     design_ref="5/C09",
 )
+
+prop(
+    "C02",
+    ["contracts.runtime"],
+    "proof",
+    "contract-based deductive verification of the closing chain: _manage_runners (close under shield before every exit), _aclose_runners (every runner, then all tasks awaited), the three aclose functions (loop invariants / iteration contracts over the task set), trio nursery body, stop",
+    "every exit path of each closing function is proved to perform its part: all runners closed under shield before run re-raises/returns; every still-tracked asyncio task cancelled until none is left and removed only when done; trio's channel closed inside the trio thread and the nursery scope cancelled inside the nursery block; thread payloads are daemon threads that are never joined. " + CONC_NOTE + "; termination of the asyncio close loop (a payload that swallows cancellation spins it) and cross-thread ordering are NOT proved",
+    "trusted: pyvc's Python semantics; assumed: a done asyncio task has run its finally blocks, a nursery block / trio.run exits only after all children (shielded cleanup included) finished, asyncio.run cancels and awaits leftover tasks",
+    trusted=["assumed: gather(..., return_exceptions=True) returns only when all awaited tasks are done; shield protects the close from cancellation; a nursery block and trio.run exit only after every child finished",
+             "NOT COVERED (large): termination of `while self._tasks`, cross-thread ordering between the trio thread and the loop thread, 'no further step after the call ended' for tasks created concurrently with closing"],
+    design_ref="5/C02",
+)
+
+prop(
+    "C11",
+    ["contracts.runtime"],
+    "proof",
+    "contract-based deductive verification of thread confinement: every hand-over of payload code goes through a hop primitive into the single asyncio loop / the single trio run (ghost thread tags in the effect trace), plus AST-decided wiring facts",
+    "reformulated as thread confinement (schedule-independent): every asyncio payload is scheduled onto the runner's own loop (call_soon_threadsafe / create_task / run_coroutine_threadsafe with that loop), every trio payload enters the one nursery of the one trio.run of the current TrioRunner through its token, registered thread payloads get a fresh daemon thread each; all runners of one MetaRunner share the running loop; no other event loop is ever created (AST). Mutual exclusion between checkpoints then follows from 'one loop = one thread' and cooperative scheduling (assumed)",
+    "trusted: pyvc's Python semantics; one loop = one thread, cooperative scheduling of asyncio and trio; contracts of the hop primitives",
+    trusted=["assumed: call_soon_threadsafe/create_task/run_coroutine_threadsafe run the callable on the loop's thread; trio.from_thread.run/start_soon run it in the token's/nursery's run; run_in_executor uses a thread that is not the loop thread",
+             "scope: execute(..., flavour=threading) runs in the CALLER's thread by design (docstring of run_payload); the thread clause speaks about registered thread payloads",
+             "NOT COVERED: actual schedules"],
+    design_ref="5/C11",
+)
